@@ -309,6 +309,15 @@ def family_cases(r):
   g.define('Q', 'u', [(AND, ['N1', 'B'])])
   g.make('N0', 'Q', [['B', 'C']])           # sorts before N1: MakeAll has to postpone it
   out.append(g)
+  for via in (COPY, INC):
+    g = base('user_of_made_predicate_through_intermediate')
+    g.define('P1', 'u', [(INC, ['A'])]); g.define('F', 'u', [(OR, ['P1', 'C'])])
+    g.make('N1', 'F', [['A', 'B']])
+    g.define('W', 'u', [(via, ['N1'])])       # the made predicate is reached only through W
+    g.define('Q', 'u', [(OR, ['W', 'B'])])
+    g.make('N0', 'Q', [['B', 'C']])           # sorts before N1 and does not mention it directly
+    g.make('Z0', 'Q', [['B', 'C']])           # the same application under a name that sorts after N1
+    out.append(g)
   return [g.case() for g in out]
 
 
